@@ -634,3 +634,14 @@ F("L50", "C01", RA, "          if proper is not None:\n            factors = fac
 F("L51", "C01", RA, "            if 1 < g < vals[i]:\n              proper = g", "            if 1 < g <= vals[i]:\n              proper = g", "R-C01-PROPER", "CheckGCD: the added factor may be the modulus itself")
 F("L52", "C01", RA, "            factors = factors + [proper, vals[i] // proper]", "            factors = factors + [proper + 1, vals[i] // proper]", "R-C01-SINK", "CheckGCD: added value does not divide the modulus")
 T("L53", "C03", RA, "          if proper is not None:\n            factors = factors + [proper, vals[i] // proper]\n", "          if proper is not None:\n            factors = factors + [vals[i] // proper, proper]\n", "C03: the batch gcd stays the first recorded value whatever follows")
+
+# ---------------------------------------------------------------------------------- round 4 rows
+F("M01", "C12", NS, "  tab = [-1] * 2**block_size\n", "  tab = [0] * 2**block_size\n", "R-C12-UNIVERSAL", "last-occurrence table starts at 0 with 0-based positions (seed r4)")
+F("M02", "C12", NS, "    sumb += math.log(j - tab[b], 2)\n    tab[b] = j", "    tab[b] = j\n    sumb += math.log(j - tab[b] + 1, 2)", "R-C12-UNIVERSAL", "table updated before the distance is read")
+ROWS.append({"id": "M03", "prop": "C12", "expect": "silent", "what": "1-based positions with a table that starts at 0", "edits": [
+    {"file": NS, "old": "  tab = [-1] * 2**block_size\n  for i in range(q):\n    tab[blocks[i]] = i\n", "new": "  tab = [0] * 2**block_size\n  for i in range(1, q + 1):\n    tab[blocks[i - 1]] = i\n"},
+    {"file": NS, "old": "  for j in range(q, q + k):\n    b = blocks[j]\n", "new": "  for j in range(q + 1, q + k + 1):\n    b = blocks[j - 1]\n"}]})
+F("M04", "C17", EC, "    giant_steps = 2 + n // t\n", "    giant_steps = 2 + n // (2 * self._table_size - 1)\n", "R-C17-CACHE", "giant-step count from the cached table size (seed r4)")
+F("M05", "C10", EC, "    giant_steps = 2 + n // t\n", "    giant_steps = 2 + n // (2 * self._table_size - 1)\n", "R-C10-COVER", "the same change seen from C10")
+F("M06", "C03", RA, "      if gcds[i] >= self._gcd_bound:", "      if gcds[i].bit_length() >= self._gcd_bound.bit_length():", "R-C03-VERDICT", "N-1 verdict compares bit lengths")
+T("M07", "C03", RA, "      if gcds[i] >= self._gcd_bound:", "      if not gcds[i] < self._gcd_bound:", "N-1 verdict with a negated comparison")
